@@ -57,6 +57,22 @@ class MDF:
     v: bool = False
 
 
+def _same_named(module_name):
+    """a class named User in a module of its own: two of them differ in nothing but their module"""
+    import sys
+    import types as _types
+    m = _types.ModuleType(module_name)
+    sys.modules[module_name] = m
+    ns = {"__module__": module_name, "__annotations__": {"x": int, "y": str}, "y": "d",
+          "__repr__": lambda self: f"{module_name}.User(x={self.x!r}, y={self.y!r})"}
+    cls = dataclass(repr=False)(type("User", (), ns))
+    setattr(m, "User", cls)
+    return cls
+
+
+UserV1 = _same_named("verif_c11_api_v1")
+UserV2 = _same_named("verif_c11_api_v2")
+
 NA = NewType("NA", int)
 NB = NewType("NB", str)
 
@@ -72,6 +88,7 @@ def pool():
         M1, M2, M3, MD0, MDF, E1, E2, NA, NB, int, bool, str,
         Annotated[int, 0], Annotated[int, False], Annotated[bool, 0],
         List[M1], List[M2], Optional[M3],
+        Union[UserV1, UserV2], Union[UserV2, UserV1], List[Union[UserV2, UserV1]],
     ]
 
 
